@@ -533,12 +533,13 @@ Definition gWF (p : circ * store * den * option den) := let '(c, st, d0, d1) := 
 Definition gRen (p : circ * store * den * option den) := let '(c, st, d0, d1) := p in no_rename c.
 Definition gVar (p : circ * store * den * option den) := let '(c, st, d0, d1) := p in variants_le2 c.
 Definition gKind (p : circ * store * den * option den) := let '(c, st, d0, d1) := p in const_overrides c.
+Definition gPar (p : circ * store * den * option den) := let '(c, st, d0, d1) := p in no_parallel_tpl_edges c.
 """
 
 def header(ctx=None):
     """D35 (update_template pops rogue variables from the base's own dict) is modelled as long as it is a listed finding;
     once it is repaired (entry dropped or status fixed) the mechanism model is the repaired behaviour: base untouched"""
-    d35_open = any(f["id"] == "D35" for f in known_findings("C15"))
+    d35_open = any(f["id"] == "C15-base-mutated" for f in known_findings("C15"))
     return HEADER.replace("D35_REPAIRED", "false" if d35_open else "true")
 
 def cs(s):
@@ -750,7 +751,7 @@ def check(ctx):
     idx = [i for i, c in enumerate(cases) if c["kind"] == "yaml" and i not in crashed]
     if idx:
         items = [coq_yaml(cases[i], outs[i]) for i in idx]
-        bSt, bD0, bD1, rt, gW, gR, gV, gK = eval_lists(ctx, "yaml", "", ["yamlStore", "yamlDen0", "yamlDen1", "yamlRT", "gWF", "gRen", "gVar", "gKind"], items, 40)
+        bSt, bD0, bD1, rt, gW, gR, gV, gK, gP = eval_lists(ctx, "yaml", "", ["yamlStore", "yamlDen0", "yamlDen1", "yamlRT", "gWF", "gRen", "gVar", "gKind", "gPar"], items, 40)
         assert not gW, "generator produced a dictionary with duplicate keys"
         for k in set(bSt) | set(bD0) | set(bD1):
             bad_impl.append(idx[k])
@@ -760,6 +761,8 @@ def check(ctx):
             gv.setdefault(idx[k], []).append("no_rename")
         for k in gK:
             gv.setdefault(idx[k], []).append("const_overrides")
+        for k in gP:
+            gv.setdefault(idx[k], []).append("no_parallel_tpl_edges")
         model_rt_bad = set(rt)
         for k, i in enumerate(idx):
             ok = yaml_spec_ok(outs[i])
@@ -826,7 +829,7 @@ def check(ctx):
                                    "Python transcriptions of Replace.replace_words / Replace.loopA; the transcriptions are tied to the Coq model only through the "
                                    "smaller space, where model = real = transcription."),
                               impl_vs_model_mismatches=len(bad_impl), impl_vs_spec_mismatches=len(bad_spec),
-                              outside_guards={g: sum(1 for v in gv.values() if g in v) for g in ("no_side_flags", "base_not_mutated", "variants_le2", "no_rename", "const_overrides")}),
+                              outside_guards={g: sum(1 for v in gv.values() if g in v) for g in ("no_side_flags", "base_not_mutated", "variants_le2", "no_rename", "const_overrides", "no_parallel_tpl_edges")}),
                    trusted_base=["numpy float64 arithmetic is exact on the generated dyadic data (vector fields are compared as exact rationals)",
                                  "harness reading of template objects (walk), of the written YAML file (read_store, ruamel safe loader) and of variable "
                                  "definitions (PyRates' own _parse_defaults)",
